@@ -98,14 +98,17 @@ PROPS = {
         "assumptions": [],
     },
     "C02": {
-        "lean": ["Knut.Properties.C02", "Knut.Properties.C02Close"],
+        "lean": ["Knut.Properties.C02", "Knut.Properties.C02Close", "Knut.Properties.C02Command"],
         "level": "proof",
         "claim": "Spec.ledgerEntries (Spec/Ledger.lean) defines the report independently of the pipeline: window bookings mapped/filtered/aligned plus, with closing, the transfer of "
                  "each income/expense/equity total booked in [previous closing day, s) to Equity:Equity at every shown period start. Proved for all journals and flags: C02_noclose (without "
                  "closing the pipeline model's report inserts ARE the ledger entries, same list), C02_unmapped_untouched, C02_hidden_no_entry, C02_hidden_only_in_delta, and "
                  "C02_closing_partial (the closing pair books -T / +T); Properties/C02Close.lean: C02_close (WITH closing the inserts are a permutation of Spec.ledgerEntries — the accumulators equal the direct sums over "
                  "[previous closing day, s) — for sorted, date-consistent days containing the period starts; the permutation cannot be strengthened to equality, kernel-checked witness), C02_closing_day, C02_close_invariant. "
-                 "The hypotheses (sorted days, period starts present and increasing, zero values in unvalued runs) are what Builder.ofList + ensureDays + NewPartition produce; deriving them in Lean is not done. "
+                 "The hypotheses (sorted days, period starts present and increasing, zero values in unvalued runs) are what Builder.ofList + ensureDays + NewPartition produce, and Properties/C02Command.lean derives them: C02_command_hyps, C02_startDates_increasing, "
+                 "C02_command (for every flag vector without --val and every directive list with value-0 postings the inserts of BalanceCmd.entries are a permutation of Spec.ledgerEntries on the "
+                 "configuration and days the command builds), C02_command_noclose, C02_create_zero / C02_loader_zero / C02_loaded_journal (the value-0 hypothesis holds for everything transaction.Create and the "
+                 "loader produce), C02_command_output (BalanceCmd.run = BalanceCmd.runSpec: same stdout, error or panic, for directives on accounts with an account type). "
                  "Additionally the monitor report_equals_ledger renders Spec.ledgerEntries and compares it cell for cell with the REAL output of `knut balance` (text and CSV) on every case, "
                  "in addition to the cell-exact model-vs-code comparison over the full flag space (filters, -m incl. level 0 and suffix, remap, last, diff, close).",
         "note": "Trusted: Lean kernel; axioms propext, Classical.choice, Quot.sound; regexps restricted to the family the driver implements; rendering (BalanceReport.table, Table) is shared by "
